@@ -569,7 +569,7 @@ private def view (s : St) : Option (List (Nat × Nat × Nat) × Nat × Nat) :=
 /-- type of the last record in the active file (2 = sealing record) -/
 private def lastTyp (s : St) : Option Nat :=
   match s.db with
-  | some db => ((scan C db.activeId (activeFile s db).bytes).recs.getLast?).bind
+  | some db => ((scan C true db.activeId (activeFile s db).bytes).recs.getLast?).bind
       (fun x => (decodeRecord x.1).map (·.typ))
   | none => none
 
